@@ -7,6 +7,8 @@ package main
 
 import (
 	"fmt"
+	"go/token"
+	"os"
 	"regexp"
 	"strings"
 
@@ -406,7 +408,19 @@ func (w *World) frozenSink() *sinkSpec {
 		isSink: func(c ssa.CallInstruction, arg int) bool {
 			return arg == len(c.Common().Args)-1 && isFrozenArms(w.ledgerArms(c))
 		},
-		isSinkFunc: func(v ssa.Value) bool { return isFrozenArms(w.ledgerArmsOfValue(v, nil)) },
+		isSinkFunc: func(v ssa.Value) bool {
+			// every value the function variable may hold is a frozen-ledger setter
+			srcs := w.funcValueSources(v, 0)
+			if len(srcs) == 0 {
+				return false
+			}
+			for _, sv := range srcs {
+				if !isFrozenArms(w.ledgerArmsOfValue(sv, nil)) {
+					return false
+				}
+			}
+			return true
+		},
 	}
 }
 
@@ -621,7 +635,11 @@ func o2(w *World, r *Report) {
 	// followed to the arguments at every call site
 	var valueOK func(fn *ssa.Function, v ssa.Value, depth int) (bool, string)
 	valueOK = func(fn *ssa.Function, v ssa.Value, depth int) (bool, string) {
-		if reRefund.MatchString(w.Canon(v)) {
+		cv := w.Canon(v)
+		if fn.Parent() != nil {
+			cv = strings.ReplaceAll(cv, "^", "") // a closure sees its enclosing function's parameters
+		}
+		if reRefund.MatchString(cv) {
 			return true, ""
 		}
 		if pi := paramIndexIn(fn, v); pi >= 0 && depth < 3 {
@@ -692,8 +710,9 @@ func o3(w *World, r *Report) {
 		r.Undecided("O-3", "unfreezingStakes", "refund callback not found")
 		return
 	}
+	uv := w.unfreezeVerdict(uf)
 	rew := w.findCall(uf, "^p1.Reward(p0.From, types.PowerToAmount(p0.Power), true)")
-	ok := rew != nil && w.condCanonHolds(rew.Block(), "(p0.RefundHeight <= ^p0)", 1)
+	ok := uv.maturity && uv.refundThenDelete
 	r.Check(ok, "O-3", "unfreezingStakes:maturity", "the refund is control-dependent on RefundHeight <= current height", "a frozen stake is refunded without (or with a wrong) maturity test", fnSite(w, uf))
 	r.Check(rew != nil, "O-3", "unfreezingStakes:to-owner-in-full", "the owner (stake.From) is credited PowerToAmount(stake.Power) in the consensus overlay", "the refund does not credit PowerToAmount(power) to the stake's owner", fnSite(w, uf))
 	// iterates the frozen ledger's committed items
@@ -741,16 +760,116 @@ func checkC13(w *World, r *Report) {
 	w.checkCallers(r, "W-1", fref{pkgStake, "StakeCtrler", "doRewardTo"}, map[string]string{"stake.(*StakeCtrler).BeginBlock": "per signed vote", "stake.(*StakeCtrler).DoReward": "exported test entry (no caller in the node)"}, 1)
 	dr := needFn(r, "W-2", w, fref{pkgStake, "StakeCtrler", "doRewardTo"})
 	if dr != nil {
-		s := "p0.Stakes[(phi((φ + 1)|-1) + 1)]"
-		obj := "phi(recv.rewardLedger.GetFinality(ledger.ToLedgerKey(" + s + ".From))#0|stake.NewReward(" + s + ".From))"
-		amt := mulExpr("new(uint256.Int)", "uint256.NewInt(uint64("+s+".Power))", "recv.govParams.RewardPerPower()")
-		iss := w.findCall(dr, obj+".Issue("+amt+", p1)")
-		set := w.findCall(dr, "recv.rewardLedger.SetFinality("+obj+")")
-		r.Check(iss != nil, "W-2", "doRewardTo:amount-and-owner", "each stake issues power x RewardPerPower() to the reward object of the stake's owner", "the per-stake reward is not `stake power x RewardPerPower()` issued to the stake owner's reward object", fnSite(w, dr))
-		r.Check(iss != nil && set != nil && instrDominates(iss, set), "W-2", "doRewardTo:recorded", "the updated reward object is recorded in the consensus overlay", "the updated reward object is not recorded", fnSite(w, dr))
-		// NewReward only when not found
-		nr := w.findCall(dr, "stake.NewReward("+s+".From)")
-		r.Check(nr != nil && w.condCanonHolds(nr.Block(), "(recv.rewardLedger.GetFinality(ledger.ToLedgerKey("+s+".From))#1 == xerrors.ErrNotFoundResult)", 1), "W-2", "doRewardTo:new-only-if-absent", "a fresh reward object is used only when none exists", "an existing reward object can be replaced by a fresh one (earlier rewards lost)", fnSite(w, dr))
+		// evaluated per stake under facts about the reward-ledger lookup (helpers
+		// expanded, the reward object resolved along the path)
+		st := "p0.Stakes[(phi((φ + 1)|-1) + 1)]"
+		get := "recv.rewardLedger.GetFinality(ledger.ToLedgerKey(" + st + ".From))"
+		amt := mulExpr("new(uint256.Int)", "uint256.NewInt(uint64("+st+".Power))", "recv.govParams.RewardPerPower()")
+		ev := func(in ssa.Instruction) string {
+			c, ok := in.(ssa.CallInstruction)
+			if !ok {
+				return ""
+			}
+			cc := c.Common()
+			switch {
+			case w.callIs(cc, fref{pkgStake, "Reward", "Issue"}):
+				rcv, args := callRecvArgs(cc)
+				if len(args) == 2 {
+					return "ISS\x01" + w.Canon(w.phiOnPath(rcv)) + "\x01" + w.canonResolved(args[0]) + "\x01" + w.Canon(args[1])
+				}
+				return "ISS\x01?"
+			case w.callIs(cc, fref{pkgStake, "", "NewReward"}):
+				return "NEW\x01" + w.canonCall(cc, 0)
+			default:
+				if arms := w.ledgerArms(c); len(arms) == 1 && arms[0].Method == "SetFinality" && strings.HasSuffix(w.Canon(arms[0].Recv), ".rewardLedger") {
+					return "SET\x01" + w.Canon(w.phiOnPath(cc.Args[len(cc.Args)-1]))
+				}
+			}
+			return ""
+		}
+		run := func(facts ...atom) ([]pathEnd, bool) {
+			fe := w.newFactEval(nil, facts...)
+			saved := w.branchMarkers
+			w.branchMarkers = false
+			e := &enumerator{w: w, eval: fe.eval, event: ev, max: 4000, complete: true, evCache: map[ssa.Instruction]string{}, hasEv: map[*ssa.Function]int{}, pathSensitiveEvents: true}
+			var out []pathEnd
+			e.walkFn(dr, nil, 0, func(evs []string, ret *ssa.Return, term string) {
+				out = append(out, pathEnd{append([]string(nil), evs...), term, ret})
+			})
+			w.cur = nil
+			w.branchMarkers = saved
+			return out, e.complete && len(fe.used) > 0
+		}
+		errv := regexp.QuoteMeta(get) + `#1$`
+		found := []atom{AR(errv, "==", `^nil$`), AR(errv, "!=", `^xerrors\.ErrNotFoundResult$`)}
+		notFound := []atom{AR(errv, "==", `^xerrors\.ErrNotFoundResult$`), AR(errv, "!=", `^nil$`)}
+		other := []atom{AR(errv, "!=", `^xerrors\.ErrNotFoundResult$`), AR(errv, "!=", `^nil$`)}
+		// every ISS is followed by a SET of the same object before the next ISS; wantObj is the object issued to
+		wellFormed := func(ps []pathEnd, wantObj string, wantNew bool) (issOK, setOK, newOK bool) {
+			issOK, setOK, newOK = true, true, true
+			n := 0
+			for _, p := range ps {
+				pending := ""
+				sawNew := false
+				for _, e := range p.Events {
+					f := strings.Split(e, "\x01")
+					switch f[0] {
+					case "NEW":
+						sawNew = true
+						if !wantNew || f[1] != "stake.NewReward("+st+".From)" {
+							newOK = false
+						}
+					case "ISS":
+						n++
+						if pending != "" {
+							setOK = false
+						}
+						if len(f) != 4 || f[1] != wantObj || f[2] != amt || f[3] != "p1" {
+							issOK = false
+						}
+						if wantNew && !sawNew {
+							newOK = false
+						}
+						pending = f[1]
+						sawNew = false
+					case "SET":
+						if pending == "" || f[1] != pending {
+							setOK = false
+						}
+						pending = ""
+					}
+				}
+				if pending != "" && (p.Term == "ok" || p.Term == "loop") {
+					setOK = false
+				}
+			}
+			if n == 0 {
+				issOK = false
+			}
+			return
+		}
+		pf, c1 := run(found...)
+		pn, c2 := run(notFound...)
+		if os.Getenv("RIGOCHECK_DEBUG") != "" {
+			for _, p := range pf {
+				fmt.Println("DBG found", p.Term, p.Events)
+			}
+			for _, p := range pn {
+				fmt.Println("DBG notfound", p.Term, p.Events)
+			}
+		}
+		po, c3 := run(other...)
+		i1, s1, n1 := wellFormed(pf, get+"#0", false)
+		i2, s2, n2 := wellFormed(pn, "stake.NewReward("+st+".From)", true)
+		skipOther := c3
+		for _, p := range po {
+			if len(p.Events) > 0 {
+				skipOther = false
+			}
+		}
+		r.Check(c1 && c2 && i1 && i2, "W-2", "doRewardTo:amount-and-owner", "each stake issues power x RewardPerPower() to the reward object of the stake's owner", "the per-stake reward is not `stake power x RewardPerPower()` issued to the stake owner's reward object", fnSite(w, dr))
+		r.Check(c1 && c2 && s1 && s2, "W-2", "doRewardTo:recorded", "the updated reward object is recorded in the consensus overlay", "the updated reward object is not recorded", fnSite(w, dr))
+		r.Check(c1 && c2 && n1 && n2 && skipOther, "W-2", "doRewardTo:new-only-if-absent", "a fresh reward object is used only when none exists; any other lookup error skips the stake", "an existing reward object can be replaced by a fresh one (or a failed lookup is rewarded)", fnSite(w, dr))
 	}
 	is := needFn(r, "W-3", w, fref{pkgStake, "Reward", "Issue"})
 	if is != nil {
@@ -1048,4 +1167,62 @@ func (w *World) hostOfCall(root *ssa.Function, match func(string) bool, depth in
 		}
 	}
 	return nil, nil, nil
+}
+
+// funcValueSources: the function values a function-typed expression may hold —
+// through phis, through a local variable captured by a closure (all stores into
+// its cell) and through a free variable bound by the enclosing function.
+func (w *World) funcValueSources(v ssa.Value, depth int) []ssa.Value {
+	if depth > 4 {
+		return nil
+	}
+	switch x := stripConv(v).(type) {
+	case *ssa.MakeClosure:
+		return []ssa.Value{x}
+	case *ssa.Phi:
+		var out []ssa.Value
+		for _, e := range x.Edges {
+			if e == ssa.Value(x) {
+				continue
+			}
+			s := w.funcValueSources(e, depth+1)
+			if s == nil {
+				return nil
+			}
+			out = append(out, s...)
+		}
+		return out
+	case *ssa.UnOp:
+		if x.Op != token.MUL {
+			return nil
+		}
+		cell := x.X
+		if fv, ok := cell.(*ssa.FreeVar); ok {
+			b := w.freeVarBinding(fv)
+			if b == nil {
+				return nil
+			}
+			cell = b
+		}
+		a, ok := cell.(*ssa.Alloc)
+		if !ok || a.Referrers() == nil {
+			return nil
+		}
+		var out []ssa.Value
+		for _, ref := range *a.Referrers() {
+			if st, isS := ref.(*ssa.Store); isS && st.Addr == ssa.Value(a) {
+				s := w.funcValueSources(st.Val, depth+1)
+				if s == nil {
+					return nil
+				}
+				out = append(out, s...)
+			}
+		}
+		return out
+	case *ssa.FreeVar:
+		if b := w.freeVarBinding(x); b != nil {
+			return w.funcValueSources(b, depth+1)
+		}
+	}
+	return nil
 }
